@@ -41,14 +41,15 @@ def type_items():
 SPLIT = {'cat.Maps': 16, 'cat.HasUnions': 16, 'cat.Nest': 16, 'cat.Opt': 16, 'cat.UO': 8, 'cat.Lists': 2,
          'cat.Deep': 2, 'cat.UsesAliases': 2, 'cat.WithBytes': 8}
 # quick tier: explored one top-level field at a time (the other fields hold fixed valid values)
-FOCUS = ('cat.HasUnions', 'cat.WithBytes')
+FOCUS = ('cat.HasUnions', 'cat.WithBytes', 'cat.Colls', 'cat.UColl')
 
 
 def split_items(items):
     out = []
     for it in items:
         if it in FOCUS and hx.TIER == 'quick':
-            out.extend('%s#%d' % (it, k) for k in range(len(lookup(it)[0].all_fields)))
+            out.extend('%s#%d' % (it, k) for k in range(len([f for f in lookup(it)[0].all_fields
+                                                             if not getattr(f, 'catch_all', False)])))
             continue
         n = SPLIT.get(it, 1)
         if hx.TIER == 'thorough':
@@ -118,7 +119,7 @@ def items_float():
 I8 = Tuple[int, int, int, int, int, int, int, int]
 S4 = Tuple[str, str, str, str]
 B16 = Tuple[bool, bool, bool, bool, bool, bool, bool, bool, bool, bool, bool, bool, bool, bool, bool, bool]
-F2 = Tuple[float, float]
+F2 = Tuple[float, float, float, float]
 
 OUTSIDE = ['Bytes/Timestamp payloads from a concrete list', 'map keys concrete', 'json.dumps/json.loads entry points',
            'old_style, msgpack', 'subclass instances in struct-typed fields', 'the catch-all tag as a value (C04)',
